@@ -5,9 +5,9 @@ PROP=$1; DIR=$2; TIER=${3:-quick}
 WT=/tmp/seedwt_$$_$PROP
 git -C /repo worktree add -q --detach $WT HEAD || exit 2
 trap 'git -C /repo worktree remove --force $WT' EXIT
-echo "== demo on clean tree"; (cd $DIR && PYTHONPATH=$WT /venv/bin/python demo.py >/dev/null 2>&1; echo "exit $?")
+echo "== demo on clean tree"; (cd $DIR && VRT_CACHE_DIR=/tmp/vrt_tool/cache PYTHONPATH=$WT:/tmp/vrt_tool/harness/rt /venv/bin/python demo.py >/dev/null 2>&1; echo "exit $?")
 git -C $WT apply $DIR/patch.diff || { echo "patch does not apply"; exit 2; }
-echo "== demo on patched tree"; (cd $DIR && PYTHONPATH=$WT /venv/bin/python demo.py 2>&1 | tail -3; echo "exit $?")
+echo "== demo on patched tree"; (cd $DIR && VRT_CACHE_DIR=/tmp/vrt_tool/cache PYTHONPATH=$WT:/tmp/vrt_tool/harness/rt /venv/bin/python demo.py > /tmp/demo_out_$$ 2>&1; rc=$?; tail -3 /tmp/demo_out_$$; rm -f /tmp/demo_out_$$; echo "exit $rc")
 if [ -n "$RUN_TESTS" ]; then
   echo "== pinned tests on patched tree"
   (cd $WT && /venv/bin/python -m pytest -q -p no:cacheprovider --timeout=900 --continue-on-collection-errors tests/common tests/test_sourcecode.py tests/test_profiling.py 2>&1 | tail -2)
